@@ -100,6 +100,11 @@ EXTENSIONS (added for C05/C14/C15; all optional, absent = the behaviour describe
             write_completed (bool), write_error, sent_body (body bytes handed to the socket).
             write_sizes [n..] + write_pause_ms (default 1)   deliver `raw` in TCP writes of these sizes (last
             repeats) with a flush and a pause between them (also switches to the concurrent write/read path).
+            gen_body.abort_after: n   the client gives up after n body bytes (no chunked terminator, no answer awaited; response entry
+            {complete: False, aborted: True}); the connection is then dropped at once.
+            abort_after: n   (non-pipelined connections) read n bytes of the response, then ABANDON the connection: it is
+            dropped at once, nothing is drained and no further request is sent; the response entry is {complete: False,
+            aborted: True, read: bytes read, raw: its first 4 KiB}.
   REPLY     write_sizes [n..] + write_pause_ms   the same for a mock host's reply (adversarial frame boundaries:
             hyper's client sees the reply in these pieces).
   SCENARIO  upstream_capture: n   the mock hosts parse incrementally (no quadratic rescans, no 100 MiB copies):
